@@ -106,6 +106,7 @@ def run_item(item):
             for n in (0, 1, 2, 3):
                 E, recs = decx.explore(cpu, mode, n, None, caps=dict(index=2), max_paths=1500, budget_s=30 if tier == "quick" else 240)
                 analyse(cpu, mode, n, None, E, recs, res, tier)
+        res.pop("_sib_seen", None)
         return res
     _, cpu, mode, si, idx, tier = item
     mod = isa.load(cpu)
@@ -117,6 +118,7 @@ def run_item(item):
             n = ml
             E, recs = decx.explore(cpu, mode, n, s, caps=dict(index=2), max_paths=600 if tier == "quick" else 3000, budget_s=20 if tier == "quick" else 240)
             analyse(cpu, mode, n, s, E, recs, res, tier)
+    res.pop("_sib_seen", None)
     return res
 
 
@@ -174,13 +176,40 @@ def analyse(cpu, mode, n, spec, E, recs, res, tier):
             stage_checks(cpu, mode, w, fmts, res)
         # (c) selector fields that the exploration realized under the cap (only 2 of their values were followed):
         # every other value of such a field is tried CONCRETELY on the first witness (real decoder + all stages)
+        # (bounded: the first (quick) / first 6 (thorough) paths of every (spec, mnemonic) pair)
+        dk = (cpu, isa.spec_id(spec) if spec is not None else "-", str(i.mnemonic))
+        seen = res.setdefault("_sib_seen", {})
+        seen[dk] = seen.get(dk, 0) + 1
+        if seen[dk] > (1 if tier == "quick" else 6):
+            continue
         for w2 in decx.siblings(r, data, limit=40):
             res["capped_field_siblings"] = res.get("capped_field_siblings", 0) + 1
             stage_checks(cpu, mode, w2, fmts, res)
+        # (d) ISAs with prefix bytes: the same witness behind each prefix byte, concretely (real decoder + all stages)
+        for pb in _prefixes(cpu, mode):
+            res["prefixed_witnesses"] = res.get("prefixed_witnesses", 0) + 1
+            stage_checks(cpu, mode, (pb + data)[:max(n, len(data))], fmts, res)
     if recs and len(res["samples"]) < 3:
         r = recs[len(recs) // 2]
         res["samples"].append({"cpu": cpu, "mode": mode, "focus": spec.format if spec else None, "input_len": n, "paths": len(recs), "complete": E.complete,
                                "a_path_condition": [str(z3.simplify(x))[:90] for x in r.pc[:4]], "outcome": r.outcome, "mnemonic": getattr(r.ins, "mnemonic", None)})
+
+
+_PFX = {}
+
+
+def _prefixes(cpu, mode):
+    k = (cpu, repr(mode))
+    if k not in _PFX:
+        from vf.props.c11 import prefix_bytes
+        mod = isa.load(cpu)
+        try:
+            with isa.mode_ctx(mod, mode):
+                si = mod.disassemble.iset()
+            _PFX[k] = prefix_bytes(mod, si)[:8]
+        except Exception:
+            _PFX[k] = []
+    return _PFX[k]
 
 
 def _decode_violation(cpu, mode, data, spec, exc, res):
